@@ -13,10 +13,11 @@ import Deepali.Drv.ImageOps
 import Deepali.Drv.GridDerive
 import Deepali.Drv.Itk
 import Deepali.Drv.ImageIO
+import Deepali.Drv.TransformState
 namespace Deepali.Drv
 open Deepali.Proto
 
 def allHandlers : List (String × Reader String) :=
-  gridHandlers ++ sampleHandlers ++ flowHandlers ++ affineHandlers ++ bsplineHandlers ++ fdHandlers ++ lossHandlers ++ dispatchHandlers ++ imageOpsHandlers ++ gridDeriveHandlers ++ itkHandlers ++ imageioHandlers
+  gridHandlers ++ sampleHandlers ++ flowHandlers ++ affineHandlers ++ bsplineHandlers ++ fdHandlers ++ lossHandlers ++ dispatchHandlers ++ imageOpsHandlers ++ gridDeriveHandlers ++ itkHandlers ++ imageioHandlers ++ tstateHandlers
 
 end Deepali.Drv
